@@ -524,7 +524,7 @@ func genHistory(t *rapid.T) history {
 }
 
 func props() []rp.Prop {
-	return []rp.Prop{rp.P[history]{Name: "history", Checks: ev.Pick(6000, 200000) / ev.Shards(), Gen: genHistory, Check: checkHistory}}
+	return []rp.Prop{rp.P[history]{Name: "history", Checks: ev.Pick(6000, 1500000) / ev.Shards(), Gen: genHistory, Check: checkHistory}}
 }
 
 func TestC17(t *testing.T)    { rp.RunAll(t, props()...) }
